@@ -12,6 +12,9 @@ def _op_names(site, rng, k=2):
     return [str(x) for x in rng.choice(names, size=min(k, len(names)), replace=False)]
 
 
+MAX_DIM = 1100
+
+
 def run(rec):
     warnings.simplefilter('ignore')
     from tenpy.networks.mps import MPS, MPSEnvironment
@@ -26,9 +29,11 @@ def run(rec):
                 'and without operator strings, overlap, MPSEnvironment expectation values with bra != ket, get_rho_segment, '
                 'entanglement/mutual information, charge statistics, sample_measurements weights; oracle = dense state and kron '
                 'operators with explicit JW strings; non-trivial = max chi >= 2')
-    rec.bounds = {'L': Ls, 'reps': reps}
+    rec.bounds = {'L': Ls, 'reps': reps, 'max_hilbert_dimension': MAX_DIM}
     for fname, fam in [x for x in mpsgen.site_families() if not getattr(x[1], 'takes_L', False)]:
         for L in Ls:
+            if int(np.prod([x.dim for x in mpsgen.make_sites(fam, L)])) > MAX_DIM:
+                continue      # dense operator oracle: Hilbert space dimension bounded (stated in the evidence)
             for rep in range(reps):
                 inp = {'sites': fname, 'L': L, 'rep': rep, 'seed': rec.seed}
                 rec.begin(f'C08 {fname} L={L} rep={rep}')
